@@ -482,7 +482,7 @@ def main():
                    "bytes": sorted(n.bytes), "linear": bool(n.linear and n.kind != "bool"), "file": fname}
             extracted[name] = rec
             out.append((name, rec, None))
-        except (ParseError, OSError) as ex:
+        except Exception as ex:  # anything unexpected in the source: fall back for this target
             missing.append("%s (%s)" % (name, ex))
             if name in dex:
                 out.append((name, dex[name], str(ex)))
@@ -496,7 +496,7 @@ def main():
                 raise ParseError("partiality changed (panic arm added or removed)")
             extracted[name] = rec
             out.append((name, rec, None))
-        except (ParseError, OSError) as ex:
+        except Exception as ex:  # anything unexpected in the source: fall back for this target
             missing.append("%s (%s)" % (name, ex))
             out.append((name, dex.get(name), str(ex)))
     with open(OUT, "w") as f:
